@@ -25,6 +25,12 @@ Definition ctx_blob (status : Z) (ct : str) (data : str) (r : rsp) : rsp :=
 Definition ctx_no_content (r : rsp) : rsp := with_rw (write_header 204) r.
 Definition ctx_http_error (msg : str) (status : Z) (r : rsp) : rsp := with_rw (fun w => wstep w (WHttpError msg status)) r.
 
+(* pkg/render Blob (Text, Plain, TextBytes, HTML, HTMLBytes go through it): the Content-Type only when none is present,
+   then the bytes (nothing is written for empty data) *)
+Definition render_blob (ct : str) (data : str) (r : rsp) : rsp :=
+  let r := write_ct ct r in
+  match data with [] => r | _ => with_rw (write data) r end.
+
 Section Encoders.
 Variable V : Type.
 Variable enc_json : V -> option str.     (* json.Encoder.Encode output (with its trailing newline), None = error *)
